@@ -36,6 +36,28 @@ func Equal(a, b any) bool { //nolint: gocyclo
 		return ra.Convert(float64Type).Float() == rb.Convert(float64Type).Float()
 	case reflect.String:
 		return ra.String() == rb.String()
+	case reflect.Map:
+		// entry by entry, the way arrays are compared: a typed map equals the generic map with the same contents
+		if ra.Len() != rb.Len() {
+			return false
+		}
+		for _, ka := range ra.MapKeys() {
+			kb := ka
+			if kb.Kind() == reflect.Interface && !kb.IsNil() {
+				kb = kb.Elem()
+			}
+			if kt := rb.Type().Key(); !kb.Type().AssignableTo(kt) {
+				if kb.Kind() != kt.Kind() || !kb.Type().ConvertibleTo(kt) {
+					return false
+				}
+				kb = kb.Convert(kt)
+			}
+			vb := rb.MapIndex(kb)
+			if !vb.IsValid() || !Equal(ra.MapIndex(ka).Interface(), vb.Interface()) {
+				return false
+			}
+		}
+		return true
 	case reflect.Ptr:
 		if rb.Kind() == reflect.Ptr && (ra.IsNil() || rb.IsNil()) {
 			return ra.IsNil() == rb.IsNil()
